@@ -55,6 +55,12 @@ type fetcherDocID struct {
 }
 
 func (f *multiFetcher) NextDoc() (immutable.Option[string], error) {
+	// The document selected by the previous call has either been read (`GetFields`) or is being
+	// skipped by the caller, in both cases the fetcher it came from must move on to its next one.
+	if f.currentFetcherIndex >= 0 && f.currentFetcherIndex < len(f.children) {
+		f.children[f.currentFetcherIndex].docID = immutable.None[string]()
+	}
+
 	selectedFetcherIndex := -1
 	var selectedDocID immutable.Option[string]
 
